@@ -63,6 +63,14 @@ Theorem C16_run_sound : forall finv,
   denotes i mf sk sk'.
 Proof. exact run_sound. Qed.
 
+(* executions compose: an (n + k)-step run is an n-step run followed by a k-step run from the memory
+   and state it reached, so C16_run_sound also speaks about every prefix of a run *)
+Theorem C16_trace_compose : forall finv n k m s mf tr,
+  vm_trace finv (n + k) m s = Some (mf, tr) ->
+  exists m1 tr1 tr2, vm_trace finv n m s = Some (m1, tr1)
+    /\ vm_trace finv k m1 (last tr1 s) = Some (mf, tr2) /\ tr = tr1 ++ tr2.
+Proof. exact trace_app. Qed.
+
 (* Whole programs.  [prog_words is] is the bytecode of an instruction list (concatenated encodings,
    as CairoProgram::assemble builds it), [mem_has m seg off ws] says the loader stored word k as a
    field element at (seg, off + k), [prog_offset is j] is the sum of op_size of the first j
@@ -194,3 +202,4 @@ Print Assumptions C16_run_sound.
 Print Assumptions C16_step_writes_fresh.
 Print Assumptions C16_step_commit_total.
 Print Assumptions C16_program_run_sound.
+Print Assumptions C16_trace_compose.
